@@ -101,7 +101,7 @@ PROPERTY = {
 HARNESSES = [
     dict(name='optimize-prec-assignment', bounded='concrete values: one-layer per-channel MPS models (64 / 32 channels, 3x3 kernel, NE16 cost), stated start counts and precision tuples', fn='h_optimize', property=['C20'], functions=['plinio/methods/mps/utils.py::optimize_prec_assignment', 'plinio/methods/mps/utils.py::_compute_cost'],
          quick=[dict(cin=32, counts=[33, 20, 11])],
-         thorough=[dict(cin=32, counts=[33, 20, 11]), dict(cin=48, counts=[34, 19, 11]), dict(cin=32, counts=[14, 10, 8]),
+         thorough=[dict(cin=32, counts=[33, 20, 11]), dict(cin=24, counts=[34, 19, 11]), dict(cin=32, counts=[14, 10, 8]),
                    dict(cin=20, counts=[15, 16, 33], precs=[8, 4, 2]), dict(cin=20, counts=[16, 15, 33], precs=[4, 8, 2]), dict(cin=20, counts=[33, 16, 15])],
          timeout=120, crosscheck=1, budget=600),
     dict(name='reassign', bounded='sizes P x C up to 3 x 3 (values symbolic and exhaustive)', fn='h_reassign', property=['C20'], functions=['plinio/methods/mps/utils.py::_reassign_precisions'],
